@@ -133,3 +133,72 @@ def select_leaves(leaves, env, strict_on=None):
         if good:
             out.append(l)
     return out, unknown
+
+
+def subst(t, env):
+    """Replace sub-terms by env (term -> term)."""
+    if not isinstance(t, tuple) or not t:
+        return t
+    if isinstance(t, mir.E):
+        if t in env:
+            return env[t]
+        return mir.E([t[0]] + [subst(a, env) if isinstance(a, tuple) else a for a in t[1:]])
+    return tuple(subst(a, env) if isinstance(a, tuple) else a for a in t)
+
+
+def forall_loop(sm):
+    """Recognise a boolean function of the shape `PRE-checks; for x in IT { if !BODY(x) { return false } } true`
+    from its semantic summary: exactly one loop whose only loop-carried value is an iterator advanced by one `next()` per trip,
+    `true` returned only when the iterator is exhausted, every trip that continues has assumed BODY, every other exit returns
+    `false`.  Then  result == true  implies  PRE and BODY(x) for every x the iterator yields.
+    -> {'pre': [(atom, value)], 'iter': initial iterator term, 'elem': x, 'body': [(atom, value)]} or None."""
+    if sm is None or not sm.complete or sm.heap_in_loop or len(sm.loopbacks) < 1:
+        return None
+    TRUE, FALSE = sem.TRUE, sem.FALSE
+    inits = set()
+    for l in sm.leaves + sm.loopbacks:
+        li = [ev[0] for ev in l.trace if ev[0][0] == "loopinit"]
+        if len(li) > 1:
+            return None
+        if li:
+            inits.add(li[0])
+    if len(inits) != 1:
+        return None
+    li = inits.pop()
+    cands = [(l_, v) for (l_, v) in li[3] if v[0] == "call"]
+    if len(cands) != 1:
+        return None
+    it_local, I0 = cands[0]
+    LV = mk("loopvar", li[1], li[2], it_local)
+    NX = mk("call", "std::iter::Iterator::next", (LV,), None, ())
+
+    def is_next(a):
+        return a[0] == "discr" and is_call(a[1], "next") and a[1][2] and a[1][2][0] == LV
+    x = None
+    pre = None
+    body = None
+    for l in sm.loopbacks:
+        nv = dict(l.ret[2]).get(it_local) if l.ret is not None else None
+        nx = [a for (a, v) in l.assume if is_next(a) and v == 1]
+        if len(nx) != 1 or nv is None or not (nv[0] == "post" and nv[1] == nx[0][1]):
+            return None
+        xx = mk("field", mk("downcast", nx[0][1], "Some"), "0")
+        k = [i for i, (a, v) in enumerate(l.assume) if is_next(a)][0]
+        p, bdy = list(l.assume[:k]), list(l.assume[k + 1:])
+        if x is None:
+            x, pre, body = xx, p, bdy
+        elif (xx, p, bdy) != (x, pre, body):
+            return None      # several ways round the loop: not this shape
+    mentions_lv = lambda t: any(s_ == LV or (s_[0] == "loopvar") for s_ in mir.walk(t))
+    if any(mentions_lv(a) for (a, v) in pre):
+        return None
+    for l in sm.leaves:
+        if l.kind != "return":
+            return None
+        if l.ret == TRUE:
+            k = [i for i, (a, v) in enumerate(l.assume) if is_next(a)]
+            if len(k) != 1 or l.assume[k[0]][1] != 0 or list(l.assume[:k[0]]) != pre or len(l.assume) != k[0] + 1:
+                return None
+        elif l.ret != FALSE:
+            return None
+    return {"pre": pre, "iter": I0, "elem": x, "body": body}
